@@ -224,6 +224,16 @@ package schema
 //@     invariant[scan] 0 <= $i && forall(j int :: 0 <= j && j < $i ==> msr.chosenList[j] != chosen)
 //@     invariant[untouched] len(msr.chosenList) == pre(len(msr.chosenList)) && arr(msr.chosenList) == pre(arr(msr.chosenList)) && off(msr.chosenList) == pre(off(msr.chosenList)) && forall(j int :: 0 <= j && j < len(msr.chosenList) ==> msr.chosenList[j] == pre(msr.chosenList[j]))
 
+//@ func (*multiStreamReader).close
+//@   props C08 C19
+//@   requires msr != nil && forall(j int :: 0 <= j && j < len(msr.sts) ==> msr.sts[j] != nil)
+//@   modifies gset("toldClosed")
+//@   at call *.closeRecv: gadd toldClosed receiver
+//@   ensures[every_source_of_the_merge_is_told] @C08,C19 forall(j int :: 0 <= j && j < len(msr.sts) ==> gset("toldClosed", msr.sts[j]))
+//@   loop 1:
+//@     modifies gset("toldClosed")
+//@     invariant[told] forall(j int :: 0 <= j && j < $i ==> gset("toldClosed", msr.sts[j]))
+
 //@ func (*StreamReader).Copy
 //@   props C08
 //@   requires sr != nil
@@ -320,6 +330,12 @@ package schema
 //@   props C08
 //@   modifies fresh()
 //@   ensures[reader] result != nil && fresh(result)
+
+//@ func StreamReaderWithConvert$1
+//@   props C08
+//@   note the item handed over by recvAny is a T value boxed as any: nil when T is an interface type and the item sent is its nil value
+//@   requires[item_is_a_boxed_T] a == nil || is(a, "T")
+//@   requires convert != nil
 
 //@ func StreamReaderFromArray
 //@   props C08 C04
